@@ -584,7 +584,7 @@ def run(ctx):
         d["what"] = KF.get(kid, "")
     truncated = bool(tot.get("truncated"))
     if not tot.get("violations") and tot["nontrivial"] < 10:
-        raise par.HarnessError("C13 vacuity guard")
+        raise par.GuardError("C13 vacuity guard")
     if tot.get("stopping_timeouts", 0):
         print("INCOMPLETE: %d runs on stopping games did not return within the alarm and were not judged (termination is C06's verdict)" % tot["stopping_timeouts"])
     cov = {"states": tot["structures"], "transitions": tot["executions"], "traces_validated_against_impl": tot["judged"],
